@@ -76,62 +76,6 @@ def toFun (M : LMat) : Mat := fun i j => M.at i j
 def ofFun (n : Nat) (f : Mat) : LMat :=
   (List.range n).map fun i => (List.range n).map fun j => f i j
 
-/-! ### the update / query state machine
-
-`pinv` is a parameter: the theorems about histories hold for every function used in its place
-(the executable instance is `pinvList` below); it returns a
-materialised list matrix, as `np.linalg.pinv` returns an array. -/
-
-structure State where
-  n : Nat
-  adj : Adj
-  res : Mat
-  adm : Mat
-  R : Mat
-  /-- `_effective_resistances` (`none` = Python `None`) -/
-  store : Option (List Rat)
-
-inductive Op where
-  | update (res : Mat)          -- update_resistances(res)
-  | average                      -- average_effective_resistance()
-  | diameter                     -- diameter_effective_resistance()
-  | effRes (a b : Nat)           -- effective_resistance(a, b)
-  | ercc (a : Nat)               -- effective_resistance_closeness_centrality(a)
-
-/-- `update_resistances`: set the property, `update_admittance()`, `update_R()`;
-`update_R` also drops the store of all pairs (the `fix:` commit of C18). -/
-def State.update (pinv : Nat → Mat → LMat) (s : State) (res : Mat) : State :=
-  let adm := admittance s.adj res
-  { s with res := res, adm := adm, R := toFun (pinv s.n (laplacian s.n adm)), store := none }
-
-/-- `__init__`: `update_resistances(resistances)`, then `_effective_resistances = None` -/
-def State.init (pinv : Nat → Mat → LMat) (n : Nat) (adj : Adj) (res : Mat) : State :=
-  State.update pinv { n := n, adj := adj, res := res, adm := fun _ _ => 0,
-                      R := fun _ _ => 0, store := none } res
-
-/-- one call; the second component is the returned value (`none`: no value / exception) -/
-def step (pinv : Nat → Mat → LMat) (s : State) : Op → State × Option Rat
-  | .update res => (s.update pinv res, none)
-  | .average =>
-      let st := allPairs s.n s.R
-      ({ s with store := some st }, some (averageOf s.n st))
-  | .diameter =>
-      match s.store with
-      | some st => (s, maxOf st)
-      | none =>
-          let st := allPairs s.n s.R
-          ({ s with store := some st }, maxOf st)
-  | .effRes a b => (s, some (effRes s.R a b))
-  | .ercc a => (s, some (ercc s.n s.R a))
-
-/-- a history of calls: final state and the list of returned values -/
-def run (pinv : Nat → Mat → LMat) (s : State) : List Op → State × List (Option Rat)
-  | [] => (s, [])
-  | op :: ops =>
-      let (s', out) := step pinv s op
-      let (s'', outs) := run pinv s' ops
-      (s'', out :: outs)
-
 /-! ### current-flow betweenness kernels (src_numerics.c) -/
 
 /-- `_vertex_current_flow_betweenness_fast(N, Is, It, admittance, R, i)` -/
@@ -176,6 +120,88 @@ def localClustering (n : Nat) (adj : Adj) (adm : Mat) (i : Nat) : Rat :=
 /-- `local_admittive_clustering().mean()` -/
 def globalClustering (n : Nat) (adj : Adj) (adm : Mat) : Rat :=
   (sumTo n fun i => localClustering n adj adm i) / (n : Rat)
+
+/-! ### the update / query state machine
+
+`pinv` is a parameter: the theorems about histories hold for every function used in its place
+(the executable instance is `pinvList` below); it returns a
+materialised list matrix, as `np.linalg.pinv` returns an array. -/
+
+structure State where
+  n : Nat
+  adj : Adj
+  res : Mat
+  adm : Mat
+  R : Mat
+  /-- `_effective_resistances` (`none` = Python `None`) -/
+  store : Option (List Rat)
+
+inductive Op where
+  | update (res : Mat)          -- update_resistances(res)
+  | average                      -- average_effective_resistance()
+  | diameter                     -- diameter_effective_resistance()
+  | effRes (a b : Nat)           -- effective_resistance(a, b)
+  | ercc (a : Nat)               -- effective_resistance_closeness_centrality(a)
+  | vcfb (i : Nat)               -- vertex_current_flow_betweenness(i)
+  | ecfb (i j : Nat)             -- edge_current_flow_betweenness()[i, j]
+  | admDeg (i : Nat)             -- admittive_degree()[i]
+  | anad (i : Nat)               -- average_neighbors_admittive_degree()[i]
+  | lclust (i : Nat)             -- local_admittive_clustering()[i]
+  | gclust                       -- global_admittive_clustering()
+  | getR (i j : Nat)             -- get_R()[i, j]
+  | getAdm (i j : Nat)           -- get_admittance()[i, j]
+  | lap (i j : Nat)              -- admittance_lapacian()[i, j]
+  | meanRes                      -- `resistances.mean()` as printed by `__str__`
+  | updAdm                       -- update_admittance()  (no argument: recompute from the property)
+  | updR                         -- update_R()
+
+/-- `update_resistances`: set the property, `update_admittance()`, `update_R()`;
+`update_R` also drops the store of all pairs (the `fix:` commit of C18). -/
+def State.update (pinv : Nat → Mat → LMat) (s : State) (res : Mat) : State :=
+  let adm := admittance s.adj res
+  { s with res := res, adm := adm, R := toFun (pinv s.n (laplacian s.n adm)), store := none }
+
+/-- `__init__`: `update_resistances(resistances)`, then `_effective_resistances = None` -/
+def State.init (pinv : Nat → Mat → LMat) (n : Nat) (adj : Adj) (res : Mat) : State :=
+  State.update pinv { n := n, adj := adj, res := res, adm := fun _ _ => 0,
+                      R := fun _ _ => 0, store := none } res
+
+/-- one call; the second component is the returned value (`none`: no value / exception) -/
+def step (pinv : Nat → Mat → LMat) (s : State) : Op → State × Option Rat
+  | .update res => (s.update pinv res, none)
+  | .average =>
+      let st := allPairs s.n s.R
+      ({ s with store := some st }, some (averageOf s.n st))
+  | .diameter =>
+      match s.store with
+      | some st => (s, maxOf st)
+      | none =>
+          let st := allPairs s.n s.R
+          ({ s with store := some st }, maxOf st)
+  | .effRes a b => (s, some (effRes s.R a b))
+  | .ercc a => (s, some (ercc s.n s.R a))
+  | .vcfb i =>      -- `if not 0 <= i < self.N: raise IndexError`
+      (s, if i < s.n then some (vcfbKernel s.n 1 1 s.adm s.R i) else none)
+  | .ecfb i j => (s, some (ecfbKernel s.n 1 1 s.adm s.R i j))
+  | .admDeg i => (s, some (admDegree s.n s.adm i))
+  | .anad i => (s, some (anad s.n s.adj s.adm i))
+  | .lclust i => (s, some (localClustering s.n s.adj s.adm i))
+  | .gclust => (s, some (globalClustering s.n s.adj s.adm))
+  | .getR i j => (s, some (s.R i j))
+  | .getAdm i j => (s, some (s.adm i j))
+  | .lap i j => (s, some (laplacian s.n s.adm i j))
+  | .meanRes =>
+      (s, some ((sumTo s.n fun i => sumTo s.n fun j => s.res i j) / ((s.n * s.n : Nat) : Rat)))
+  | .updAdm => ({ s with adm := admittance s.adj s.res }, none)
+  | .updR => ({ s with R := toFun (pinv s.n (laplacian s.n s.adm)), store := none }, none)
+
+/-- a history of calls: final state and the list of returned values -/
+def run (pinv : Nat → Mat → LMat) (s : State) : List Op → State × List (Option Rat)
+  | [] => (s, [])
+  | op :: ops =>
+      let (s', out) := step pinv s op
+      let (s'', outs) := run pinv s' ops
+      (s'', out :: outs)
 
 /-! ### executable exact linear algebra (list matrices) with certificates -/
 
@@ -291,6 +317,17 @@ def IsPot (n : Nat) (L : Mat) (v : Vec) (a b : Nat) : Prop :=
 pseudo-inverse of a connected network's Laplacian does) -/
 def IsProj (n : Nat) (L R : Mat) : Prop :=
   ∀ i j, i < n → j < n → sumTo n (fun k => L i k * R k j) = (if i = j then 1 else 0) - 1 / (n : Rat)
+
+/-- `L R` is symmetric on the leading block (third Moore–Penrose equation) -/
+def IsSymProd (n : Nat) (L R : Mat) : Prop :=
+  ∀ i j, i < n → j < n →
+    sumTo n (fun k => L i k * R k j) = sumTo n (fun k => L j k * R k i)
+
+/-- what the theorems use of `np.linalg.pinv`: the first and the third Moore–Penrose equation
+(`L R L = L`, `(L R)ᵀ = L R`) -/
+structure IsPinv13 (n : Nat) (L R : Mat) : Prop where
+  ginv : IsGinv n L R
+  symProd : IsSymProd n L R
 
 /-- cut-connectivity: every proper non-empty node set `S` has a link leaving it -/
 def CutConnected (n : Nat) (c : Mat) : Prop :=
